@@ -21,7 +21,7 @@ ASSUMPTIONS = [
     "which of several raising hooks' messages is kept is not demanded",
     "container hooks of a container whose own/outline tags match although no scenario in it is selected are not demanded",
 ]
-REQUIRED = {"grammar.fault_free": {"quick": 100, "thorough": 5000}, "grammar.under_fault": {"quick": 3000, "thorough": 200000},
+REQUIRED = {"grammar.fault_free": {"quick": 100, "thorough": 5000}, "recipe.same_hooks_with_the_autoretry_recipe": {"quick": 1000, "thorough": 30000}, "grammar.under_fault": {"quick": 3000, "thorough": 200000},
             "fault.owner_is_hook_error": {"quick": 3000, "thorough": 200000},
             "fault.outside_ancestry_unchanged": {"quick": 3000, "thorough": 200000},
             "fault.before_phase_suppresses_body": {"quick": 800, "thorough": 60000},
@@ -394,6 +394,36 @@ def fault_then_clean_run(lab, mon, case, rng):
               lambda: W(differences=dict(list(diff.items())[:6]), verdict_run2=second.get("verdict"), verdict_fault_free=obs0.verdict))
 
 
+def autoretry_recipe_run(lab, mon, rng):
+    """A project whose before_feature hook applies the documented auto-retry recipe (behave.contrib.scenario_autoretry on everything
+    feature.scenarios / rule.scenarios list -- outlines handed over as they are): with nothing failing nothing is retried, and every
+    hook is called for the very same elements, in the same order, as without the recipe."""
+    from behave.contrib.scenario_autoretry import patch_scenario_with_autoretry
+    gen = {"p_tag": 0.4, "p_nonpass": 0.0, "max_features": 2, "max_items": 3, "max_steps": 2, "p_empty_examples": 0.0, "p_stepless": 0.0,
+           "p_outline": 0.6, "outline_min_rows": 2, "p_wip": 0.0}
+    case = RB.gen_case(rng, gen=gen, p_stop=0.0, p_dry=0.0, p_noskipped=0.3)
+    obs0 = lab.run(case["program"], args=case["args"])
+
+    def recipe(state, context, name, elem, tag):
+        if name == "before_feature":
+            for container in [elem] + list(elem.rules):
+                for s in container.scenarios:
+                    patch_scenario_with_autoretry(s, max_attempts=2)
+    obs = lab.run(case["program"], args=case["args"], hook_plugins=[recipe])
+    case = dict(case, environment="before_feature applies patch_scenario_with_autoretry to feature.scenarios and rule.scenarios")
+    mon.case(("autoretry-recipe", RB.strip_case(case)), True)
+    if obs0.escaped is not None or obs.escaped is not None:
+        mon.check("recipe.no_exception_escapes", False, lambda: RB.witness(case, escaped=repr(obs.escaped or obs0.escaped)))
+        return
+    got = [list(map(str, h)) for h in obs.hooks]
+    want = [list(map(str, h)) for h in obs0.hooks]
+    mon.check("recipe.same_hooks_with_the_autoretry_recipe", got == want,
+              lambda: RB.witness(case, first_difference=next((i for i, (a, b) in enumerate(zip(got, want)) if a != b), min(len(got), len(want))),
+                                 got=got[:60], want=want[:60]))
+    mon.check("recipe.same_hooks_with_the_autoretry_recipe", obs.elem_status == obs0.elem_status and obs.calls == obs0.calls,
+              lambda: RB.witness(case, statuses=obs.elem_status, statuses_without_recipe=obs0.elem_status))
+
+
 def run(spec, mon):
     from ..lab.inproc import RunLab
     lab = RunLab()
@@ -459,6 +489,11 @@ def run(spec, mon):
         else:
             mon.seen("hook_decoration", "plain")
         try:
+            lab_plugins, lab_capture = lab.extra_hook_plugins, lab.capture_hooks
+            lab.extra_hook_plugins = lab.capture_hooks = None
+            for _ in range(3):
+                autoretry_recipe_run(lab, mon, rng)
+            lab.extra_hook_plugins, lab.capture_hooks = lab_plugins, lab_capture
             run_program(lab, mon, case, rng, tier, sample=(i == 0 and spec["shard"] == 0))
             for _ in range(3):
                 fault_then_clean_run(lab, mon, case, rng)
